@@ -42,6 +42,7 @@ func runC10(p *Prog, r *Report) {
 	r.Describe("C10.9/closed-means-ErrClosed", "every error-returning method of a protocol socket/context returns ErrClosed on the branch of its own closed flag and on the select arm of its own close channel")
 	closedMeansErrClosed(p, r, "C10.9/closed-means-ErrClosed")
 	r.Floor("C10.9/closed-means-ErrClosed", "c10.closed_paths", 70)
+	ownClosedObserved(p, r, "C10.13/own-closed-observed")
 	r.Describe("C10.8/listen-vs-close", "Listen and Close of one listener are serialised: no address stays bound after Close")
 	coreListenAtomic(p, r, "C10.8/listen-vs-close")
 }
@@ -398,4 +399,78 @@ func instrIndexInFn(in ssa.Instruction) int {
 		}
 	}
 	return k
+}
+
+
+// ownClosedObserved: a socket or context that can be closed on its own (it has a `closed`
+// flag that its Close sets) refuses Send and Recv once closed: each of its SendMsg/RecvMsg
+// looks at that flag, or waits on the object's own close channel.  (What it returns there is
+// closedMeansErrClosed's obligation; this one is that the test exists at all — a context
+// closed while its socket stays open must not accept a new request, survey or reply.)
+func ownClosedObserved(p *Prog, r *Report, R string) {
+	r.Describe(R, "every SendMsg/RecvMsg of a protocol socket or context with its own closed flag tests that flag (or selects on its own close channel): closing one context affects that context, and later calls on it fail")
+	n := 0
+	for _, fn := range p.Funcs {
+		rel, _ := p.FuncRel(fn)
+		if !strings.HasPrefix(rel, "protocol/") || fn.Signature.Recv() == nil || fn.Parent() != nil {
+			continue
+		}
+		if fn.Name() != "SendMsg" && fn.Name() != "RecvMsg" {
+			continue
+		}
+		rt := recvTypeName(fn)
+		if rt != "socket" && rt != "context" {
+			continue
+		}
+		// the receiver type has a `closed` field written by its own Close
+		key := rel + "." + rt + ".closed"
+		closers := p.WritersOf(key)
+		hasClose := false
+		for w := range closers {
+			lw := strings.ToLower(w)
+			if strings.HasSuffix(lw, "(*"+rt+").close") || strings.Contains(lw, "(*"+rt+").close$") {
+				hasClose = true
+			}
+		}
+		if !hasClose {
+			continue
+		}
+		// an operation the pattern does not have touches no state at all
+		touches := false
+		observed := false
+		visit := func(in ssa.Instruction) {
+			switch x := in.(type) {
+			case *ssa.FieldAddr:
+				touches = true
+				if fieldKeyOf(x) == key && Desc(x.X) == "recv" {
+					observed = true
+				}
+			case *ssa.Call:
+				// the socket-level call of a pattern with contexts is the default context's
+				if cn := CalleeName(&x.Call); strings.HasSuffix(cn, ").SendMsg") || strings.HasSuffix(cn, ").RecvMsg") {
+					if c := x.Call.StaticCallee(); c != nil {
+						if cr, _ := p.FuncRel(c); cr == rel {
+							observed = true
+						}
+					}
+				}
+			case *ssa.Select:
+				for _, st := range x.States {
+					d := strings.ToLower(Desc(st.Chan))
+					if st.Dir == types.RecvOnly && strings.HasPrefix(d, "recv.") && strings.Contains(d, "closeq") && strings.Count(d, ".") == 1 {
+						observed = true
+					}
+				}
+			}
+		}
+		f := &F{q: NewQ(p, r), fn: fn, Name: p.FuncName(fn), evs: p.Events(fn)}
+		f.EachInstrDeep(visit)
+		if !touches {
+			continue
+		}
+		n++
+		r.Check(observed, R, p.FuncName(fn), p.Pos(fn.Pos()), "tests its own closed flag / close channel", p.FuncName(fn)+" never looks at the "+rt+"'s own closed flag (nor waits on its own close channel): after this "+rt+" has been closed, while its socket is still open, the call is carried out instead of failing with ErrClosed")
+	}
+	r.Count("c10.own_closed_ops", n)
+	r.Floor(R, "c10.own_closed_ops", 30)
 }
